@@ -159,7 +159,9 @@ def sites_of(*classes):
     return tuple(dict.fromkeys(out))
 
 
-def run_triple(ns, kits, kit, vname, mname, nname, rng, chain_len, tlen):
+def run_triple(ns, kits, kit, vname, mname, nname, rng, chain_len, tlen, ids="distinct"):
+    """ids: 'distinct' | 'assembly' (every module carries the library's default product id, as the products of an
+    earlier level do when the caller did not name them) | 'unknown' (Biopython's default id)"""
     from Bio.Seq import Seq
     CircularRecord = ns["moclo.record"].CircularRecord
     V, M, N = getattr(kits[kit], vname), getattr(kits[kit], mname), getattr(kits[kit], nname)
@@ -177,12 +179,12 @@ def run_triple(ns, kits, kit, vname, mname, nname, rng, chain_len, tlen):
         return None
     vtext = instance_with(V.structure(), ovs[0], ovs[-1], rng, rng.randint(3, 8), avoid)
     # vector group 1 = downstream overhang = start of the chain ; group 3 = upstream overhang = end of the chain
-    vec = V(CircularRecord(Seq(ba.rotate(vtext, rng.randrange(len(vtext))) + ""), id="vec"))
+    vec = V(CircularRecord(Seq(ba.rotate(vtext, rng.randrange(len(vtext))) + ""), id=dict(distinct="vec", assembly="vec").get(ids, "<unknown id>")))
     mods, targets = [], []
     for i in range(chain_len):
         for _ in range(100):
             mt = instance_with(M.structure(), ovs[i], ovs[i + 1], rng, tlen, avoid)
-            ent = M(CircularRecord(Seq(ba.rotate(mt, rng.randrange(len(mt)))), id="mod%d" % i))
+            ent = M(CircularRecord(Seq(ba.rotate(mt, rng.randrange(len(mt)))), id=dict(distinct="mod%d" % i, assembly="assembly").get(ids, "<unknown id>")))
             if ent.is_valid():
                 break
         mods.append(ent)
@@ -280,10 +282,11 @@ def bounded(ctx):
     for (kit, vname, mname, nname) in TRIPLES:
         for chain_len in ((1,) if mname == "YTKProduct" else (1, 2, 3)):
             for tlen in ((2, 5, 10) if ctx.tier == "quick" else (2, 3, 4, 6, 8, 10)):
+              for idmode in (("distinct",) if chain_len == 1 else ("distinct", "assembly", "unknown")):
                 evals += 1
-                label = "%s+%s->%s chain %d" % (vname, mname, nname, chain_len)
+                label = "%s+%s->%s chain %d%s" % (vname, mname, nname, chain_len, "" if idmode == "distinct" else " ids " + idmode)
                 try:
-                    r = run_triple(ns, kits, kit, vname, mname, nname, rng, chain_len, tlen)
+                    r = run_triple(ns, kits, kit, vname, mname, nname, rng, chain_len, tlen, idmode)
                 except Exception as ex:
                     viol.append(dict(name="setup_%s" % vname, what="%s: scenario could not be built: %r" % (label, ex), case={}))
                     continue
@@ -293,7 +296,7 @@ def bounded(ctx):
                 if not vec.is_valid() or not all(m.is_valid() for m in mods):
                     continue   # generator artefact (an extra site slipped in): not a statement about the code
                 got, prod, _ = ba.run_assembly(vec, mods)
-                distinct.add((vname, chain_len, tlen))
+                distinct.add((vname, chain_len, tlen, idmode))
                 if got[0] != "product":
                     viol.append(dict(name="assemble_%s" % vname, what="%s: ended with %r" % (label, got), case={}))
                     continue
@@ -319,7 +322,7 @@ def bounded(ctx):
     return dict(evaluations=evals, distinct_nontrivial=len(distinct),
                 rule="every (vector, module, next-level) triple of the kits x chains of 1-3 inserts x target lengths 2..10, vectors and "
                      "modules instantiated from the real structure literals (seeded fillings free of further sites of both enzymes, "
-                     "random rotations): the product must be accepted by the next-level class at EVERY rotation and its target must "
+                     "random rotations; record ids distinct, all the library's default product id, all Biopython's default): the product must be accepted by the next-level class at EVERY rotation and its target must "
                      "contain every insert in chain order; products carrying another next-level site are outside the hypothesis; a "
                      "two-level CIDAR composition (entries -> cassette -> device)",
                 bound="8 triples x chains <= 3 x 3 (6) target lengths", samples=samples,
